@@ -37,15 +37,17 @@ Inductive reaction : Type :=
 | ConnErr (code : N)       (* GOAWAY(code) (5.4.1) *)
 | ConnClose.               (* the connection is closed without GOAWAY (5.4.1: GOAWAY is a SHOULD) *)
 
-(* What the table lists.  SE c: stream error c.  CE c: connection error c. *)
-Inductive verdict : Type := VProcess | VIgnore | SE (code : N) | CE (code : N).
+(* What the table lists.  SE c: stream error c.  CE c: connection error c.
+   PE c: a reset the server decides on for reasons of its own (refusal, limits, cancellation). *)
+Inductive verdict : Type := VProcess | VIgnore | SE (code : N) | CE (code : N) | PE (code : N).
 
-(* 5.4.2 + the property: a stream error may be escalated to the connection error of the
-   same code; any connection error may be delivered by just closing. *)
+(* 5.4.1/5.4.2 + the property: a stream error the peer caused may be escalated to the connection
+   error of the same code; any connection error may be delivered by just closing.  A reset of the
+   server's own stays a reset: nothing in it is the connection's fault. *)
 Definition admits (v : verdict) (r : reaction) : bool :=
   match v, r with
   | VProcess, Process | VIgnore, Ignore => true
-  | SE c, StreamErr c' | SE c, ConnErr c' | CE c, ConnErr c' => c =? c'
+  | SE c, StreamErr c' | SE c, ConnErr c' | CE c, ConnErr c' | PE c, StreamErr c' => c =? c'
   | SE _, ConnClose | CE _, ConnClose => true
   | _, _ => false
   end.
@@ -94,11 +96,13 @@ Definition set_st (s : state) (id : N) (x : sstate) : state :=
    8.1.4 REFUSED_STREAM, 10.5 ENHANCE_YOUR_CALM, CANCEL, INTERNAL_ERROR, and 8.1.2.6
    PROTOCOL_ERROR for a malformed message (also 5.1.2 for the concurrency limit). *)
 Definition policy : list verdict :=
-  [SE c_RefusedStreamError; SE c_EnhanceYourCalm; SE c_StreamCanceled; SE c_InternalError; SE c_ProtocolError].
+  [PE c_RefusedStreamError; PE c_EnhanceYourCalm; PE c_StreamCanceled; PE c_InternalError; PE c_ProtocolError].
 
 (* Any frame carrying a header block fragment: 4.3 decoding failure, 10.5.1 header list
-   too large, 7 internal error.  The block is decoded whatever happens to the stream. *)
-Definition block_errors : list verdict := [CE c_CompressionError; CE c_EnhanceYourCalm; CE c_InternalError].
+   too large, 7 internal error, 8.1.2.6 malformed message (a stream error the peer caused,
+   here escalated).  The block is decoded whatever happens to the stream. *)
+Definition block_errors : list verdict :=
+  [CE c_CompressionError; CE c_EnhanceYourCalm; CE c_InternalError; CE c_ProtocolError].
 
 (* A closed stream of which nothing is remembered but that its id is not above the
    highest one: 5.1.1 PROTOCOL_ERROR, or the closed-stream rule's STREAM_CLOSED. *)
